@@ -53,6 +53,8 @@ RULE = ('case = (result kind out of 12: equal / approx-equal / Student / chi-squ
         'which a representation / formatting / drawing step that did not raise is followed by an '
         'explicit verdict or statistics read that did not raise; distinct = (kind, verdict, '
         'operation sequence with parameters)')
+RULE_ADDENDA = (" Also: exact datasets (all errors zero), big-endian arrays, zero-width first bin, datasets sharing a name; numpy's error state compared before / after every operation.")
+RULE = RULE + RULE_ADDENDA
 ASSUMPTIONS = [
     'an exception raised by a read-only operation is not a violation of this property (rendering '
     'defects belong to C12): it is counted in the class raised:<operation> and the state is still '
